@@ -12,3 +12,11 @@ Check Props.C08.C08_exclusive_while_spawning :
   k = RgFrom \/ k = RgSetup \/ k = RgTryFrom.
 Check Props.C08.C08_registry_changes_only_by_its_operations :
   forall s e s', step s e = Acc s' -> reg_event s e = false -> reg s' = reg s.
+Check Props.C08.C08_terminated_instance_is_never_handed_out :
+  forall tr s1 s2 a x o p k ty s3,
+  actors s1 a = Some x -> a_notif x <> NArmed -> run s1 tr = Acc s2 ->
+  reg_ret s2 o p k ty (RInst (Some a)) = Acc s3 ->
+  k = RgTryFrom \/ (k = RgFrom /\ rlock s2 = false) -> False.
+Check Props.C08.C08_terminated_is_for_ever :
+  forall tr s s' a x, run s tr = Acc s' -> actors s a = Some x -> a_notif x <> NArmed ->
+  exists x', actors s' a = Some x' /\ a_notif x' <> NArmed.
